@@ -116,6 +116,12 @@ func vRename(oldpath, newpath string) error {
 		return vIOError{"rename: ENOENT"}
 	}
 	vCrashPoint("rename.before")
+	if vRenameFailAt > 0 {
+		vRenameFailAt--
+		if vRenameFailAt == 0 {
+			return vIOError{"rename: injected I/O error"}
+		}
+	}
 	d.vol = nw
 	d.renames++
 	vCrashPoint("rename.after")
